@@ -129,7 +129,7 @@ type Result struct {
 var defaultInitSkip = []string{
 	"runtime", "internal/", "sync", "reflect", "errors", "os", "time", "net", "fmt", "math/big", "math/rand",
 	"encoding/json", "encoding/xml", "encoding/gob", "log", "syscall", "context", "testing", "flag",
-	"crypto", "hash", "compress", "image", "html/template", "text/template", "mime", "regexp",
+	"crypto", "hash", "compress", "image", "html/template", "text/template", "mime",
 	"database", "debug", "go/", "embed", "unique", "iter", "weak", "expvar", "plugin", "archive", "text/tabwriter",
 	"golang.org/x/", "github.com/", "gonum.org/", "rsc.io/", "nhooyr.io/", "cdr.dev/", "gopkg.in/",
 	"oss.terrastruct.com/d2/d2renderers", "oss.terrastruct.com/d2/lib/textmeasure", "oss.terrastruct.com/d2/lib/jsrunner",
@@ -149,8 +149,16 @@ func matchPrefix(path string, list []string) bool {
 	return false
 }
 
+var defaultInitRun = []string{
+	"golang.org/x/text/encoding", "golang.org/x/text/transform", "golang.org/x/text/internal/utf8internal",
+	"golang.org/x/text/runes",
+}
+
 func (hc *HarnessConfig) skipInit(path string) bool {
-	if matchPrefix(path, hc.InitRun) {
+	if path == hc.Pkg {
+		return false
+	}
+	if matchPrefix(path, hc.InitRun) || matchPrefix(path, defaultInitRun) {
 		return false
 	}
 	if matchPrefix(path, hc.InitSkip) {
@@ -506,7 +514,7 @@ func (r *Result) FuncList(prefix string) []string {
 }
 
 func init() {
-	if os.Getenv("GOSX_GCOFF") != "" {
+	if os.Getenv("GOGC") == "" {
 		debug.SetGCPercent(400)
 	}
 }
